@@ -9,7 +9,24 @@ from props.c04 import PRELUDES  # noqa: E402  (link-rich starting topologies)
 ID = "C20"
 THEOREMS = ["c20_complete", "c20_copy_establishes", "c20_internal_links", "c20_destination_untouched", "c20_copy_independent",
             "c20_source_independent", "c20_fresh_ids", "c20_existing_name_refused"]
-PROFILE = {"xfile": True, "track_pairs": True, "max_copies": 4, "preludes": PRELUDES, "prelude_prob": 0.6,
+# scripted copies of every kind x id policy x recursive flag on sources that have content (handles: 0 = file)
+COPY_PRELUDES = [
+    # sections: s(1){p(2), q(3), c(4){r(5)}}, d(6); every variant of copy_section / property copy
+    [["create", 0, "CSections", "s", "t", []], ["create", 1, "CProperties", "p", "t", [1, 2]], ["create", 1, "CProperties", "q", "t", [3]],
+     ["create", 1, "CSections", "c", "t", []], ["create", 4, "CProperties", "r", "t", [4]], ["create", 0, "CSections", "d", "t", []],
+     ["copy", 6, 1, None, False, False], ["copy", 6, 1, "x1", True, False], ["copy", 6, 1, "x2", False, True],
+     ["copy", 0, 1, "x3", False, False], ["copy", 0, 1, "x4", False, True], ["copy", 6, 2, "pp", False, True],
+     ["copy", 6, 4, "x5", False, False], ["probe", 6, "CSections"], ["probe", 0, "CSections"]],
+    # a block with everything linked: B(1){a(2), b(3), g(4), t(5), m(6), df(7), src(8)}, B2(9)
+    [["create", 0, "CBlocks", "B", "t", []], ["create", 1, "CDataArrays", "a", "t", [1, 2]], ["create", 1, "CDataArrays", "b", "t", [3]],
+     ["create", 1, "CGroups", "g", "t", []], ["create", 1, "CTags", "t", "t", [1]], ["create_mtag", 1, "m", "t", 3],
+     ["create", 1, "CDataFrames", "df", "t", [5, 6]], ["create", 1, "CSources", "src", "t", []], ["create", 0, "CBlocks", "B2", "t", []],
+     ["append", 4, "LDataArrays", 2], ["append", 4, "LTags", 5], ["append", 4, "LDataFrames", 7], ["append", 4, "LSources", 8],
+     ["append", 5, "LReferences", 2], ["append", 5, "LReferences", 3], ["create_feature", 5, 3, "tagged"], ["append", 2, "LSources", 8],
+     ["copy", 0, 1, "B3", False, True], ["copy", 9, 2, None, False, True], ["copy", 9, 5, None, False, True],
+     ["copy", 9, 6, None, False, True], ["copy", 9, 7, None, False, True], ["copy", 0, 1, "B4", True, True]],
+]
+PROFILE = {"xfile": True, "preludes": COPY_PRELUDES + PRELUDES, "prelude_prob": 0.7, "track_pairs": True, "max_copies": 4,
            "weights": {"copy": 7, "create": 10, "mtag": 2, "feature": 2, "append": 6, "set_link": 5, "set_attr": 6, "delete": 2,
                        "remove": 2, "lookup": 2, "lookup_link": 1, "probe": 1, "probe_link": 1, "reopen": 0.4, "bad": 0.3}}
 RULE = ("histories that build entities of every kind with links among them (group members, tag references and features, "
